@@ -1,12 +1,14 @@
 //! Property-based verification harness for saveoursecrets/sdk.
 pub mod framework;
+pub mod engine_acct;
 pub mod prop_c08;
 pub mod prop_c08_scan;
+pub mod prop_c10;
 
 use framework::PropertyDef;
 
 pub fn registry() -> Vec<PropertyDef> {
-    vec![prop_c08::def()]
+    vec![prop_c08::def(), prop_c10::def()]
 }
 
 /// Internal process sub-modes used by engines (crash children, decoder workers).
